@@ -320,9 +320,19 @@ class AntSystem:
         # reset records
         self.all_records = []
 
+        # the episodes of different iterations may differ in length: pad the step axis as finished
+        # episodes are padded within an iteration (action 0, log-probability 0)
+        max_len = max(actions.shape[1] for actions in actions_list)
+
+        def _pad(x):
+            n = max_len - x.shape[1]
+            if n == 0:
+                return x
+            return torch.cat([x, x.new_zeros(x.shape[0], n, *x.shape[2:])], 1)
+
         return (
-            torch.stack(logprobs_list, 0),
-            torch.stack(actions_list, 0),
+            torch.stack([_pad(x) for x in logprobs_list], 0),
+            torch.stack([_pad(x) for x in actions_list], 0),
             torch.stack(reward_list, 0),
             mask_list,
         )
